@@ -125,7 +125,51 @@ def conditions_at(fn, line):
                 return
 
     visit_block(fn.block)
-    return out
+    # consequences: `let` aliases inlined (`fields_count` -> `fields.len()`), a conjunction holds part-wise, the negation
+    # of a disjunction negates every part
+    als = A.aliases(fn)
+    res = []
+
+    def split_top(c, op):
+        parts, depth, cur, i = [], 0, "", 0
+        while i < len(c):
+            ch = c[i]
+            if ch in "([{":
+                depth += 1
+            elif ch in ")]}":
+                depth -= 1
+            if depth == 0 and c.startswith(op, i):
+                parts.append(cur)
+                cur = ""
+                i += len(op)
+                continue
+            cur += ch
+            i += 1
+        parts.append(cur)
+        return parts
+
+    def add(c):
+        if c in res:
+            return
+        res.append(c)
+        ci = A.inline_text(c, als)
+        if ci != c:
+            add(ci)
+        if c.startswith("not(") and c.endswith(")"):
+            inner = c[4:-1]
+            ors = split_top(inner, "||")
+            if len(ors) > 1:
+                for o in ors:
+                    add("not(" + o + ")")
+        elif not c.startswith("match ") and not c.startswith("let-else:"):
+            ands = split_top(c, "&&")
+            if len(ands) > 1:
+                for a_ in ands:
+                    add(a_)
+
+    for c in out:
+        add(c)
+    return res
 
 
 # ---------------------------------------------------------------- ledger
